@@ -3,6 +3,7 @@
 package main
 
 import (
+	"errors"
 	"fmt"
 	"math/rand"
 
@@ -155,6 +156,8 @@ type live struct {
 }
 
 var caseNo int
+
+var errCompleted = errors.New("c07: request failed")
 
 func runCase(idx int, c *caseDesc) {
 	caseNo++
@@ -313,7 +316,12 @@ func runCase(idx int, c *caseDesc) {
 
 func finish(l live) {
 	now := clk.Ms()
-	l.e.Exit()
+	if (l.start+now)%3 == 0 {
+		// a third of the completions carry an error: their response time and completion count on the inbound totals all the same
+		l.e.Exit(base.WithError(errCompleted))
+	} else {
+		l.e.Exit()
+	}
 	if l.inbound {
 		inflight--
 		inb.Add(now, ref.EvRt, int64(now-l.start))
